@@ -378,26 +378,54 @@ class SymStr:
             return mkstr(self.p * n)
         raise Unmodelled("str * symbolic")
 
+    # Python gives the reflected method of a *subclass* operand priority (str OP str-subclass); StrBase stands for
+    # such subclasses, so a symbolic plain string defers to an overriding StrBase operand first.
+    @staticmethod
+    def _defer(o, name):
+        if isinstance(o, StrBase):
+            m = getattr(type(o), name, None)
+            if m is not None and m is not getattr(StrBase, name, None):
+                return m
+        return None
+
     def __eq__(self, o):
+        m = self._defer(o, "__eq__")
+        if m is not None:
+            return m(o, self)
         if isinstance(o, (str, SymStr, StrBase)):
             return str_eq(self, SymStr.of(o))
         return False
 
     def __ne__(self, o):
+        m = self._defer(o, "__ne__")
+        if m is not None:
+            return m(o, self)
         r = self.__eq__(o)
         return mkbool(z3.Not(r.e)) if isinstance(r, SymBool) else (not r)
 
     def __lt__(self, o):
+        m = self._defer(o, "__gt__")
+        if m is not None:
+            return m(o, self)
         return str_lt(self, SymStr.of(o))
 
     def __gt__(self, o):
+        m = self._defer(o, "__lt__")
+        if m is not None:
+            return m(o, self)
         return str_lt(SymStr.of(o), self)
 
     def __le__(self, o):
+        m = self._defer(o, "__ge__")
+        if m is not None:
+            return m(o, self)
         r = str_lt(SymStr.of(o), self)
         return mkbool(z3.Not(r.e)) if isinstance(r, SymBool) else (not r)
 
     def __ge__(self, o):
+        m = self._defer(o, "__le__")
+        if m is not None:
+            return m(o, self)
         r = str_lt(self, SymStr.of(o))
         return mkbool(z3.Not(r.e)) if isinstance(r, SymBool) else (not r)
 
@@ -597,6 +625,8 @@ def str_lt(a, b):
 class StrBase:
     """stand-in for `str` as base class of schwifty.common.Base: str protocol over a symbolic or concrete payload"""
 
+    __slots__ = ("_s", "__dict__")  # the payload is not an instance attribute (a real str has none)
+
     def __new__(cls, value="", *a, **k):
         o = object.__new__(cls)
         if isinstance(value, StrBase):
@@ -686,12 +716,28 @@ class StrBase:
 
     # pickling / copy protocol of a str subclass (documented behaviour of object.__reduce_ex__(2+) for str subclasses:
     # copyreg.__newobj__, (cls, str_value), state)
+    def __getnewargs__(self):
+        return (self._s,)
+
     def __reduce_ex__(self, protocol):
         import copyreg
 
         state = self.__dict__.copy()
-        state.pop("_s", None)
-        return (copyreg.__newobj__, (type(self), self._s), state or None)
+        return (copyreg.__newobj__, (type(self),) + tuple(self.__getnewargs__()), state or None)
+
+    def __gt__(self, o):
+        o = o._s if isinstance(o, StrBase) else o
+        if isinstance(self._s, str) and isinstance(o, str):
+            return self._s > o
+        return str_lt(SymStr.of(o), SymStr.of(self._s))
+
+    def __le__(self, o):
+        r = StrBase.__gt__(self, o)
+        return mkbool(z3.Not(r.e)) if isinstance(r, SymBool) else (not r)
+
+    def __ge__(self, o):
+        r = StrBase.__lt__(self, o)
+        return mkbool(z3.Not(r.e)) if isinstance(r, SymBool) else (not r)
 
     def __getattr__(self, name):
         if name.startswith("__") or name == "_s":
